@@ -92,6 +92,96 @@ def check_pretty_factory(ctx, rule, m):
               "integer_binning no longer builds the half-integer grid", ib.where)
 
 
+def check_edge_formula(ctx, rule, m):
+    """first_edge / last_edge are the k = 0 / k = bin_count instances of the numpy_bins formula - as polynomials and as
+    float-exact expression trees (same operations in the same association), so the growth test `value == last_edge`
+    and the lookup in the edge array see bit-identical numbers."""
+    from sa.symbolic import ftree, fsubst
+    FW = m.cls("FixedWidthBinning")
+
+    def leaf(n):
+        return {"self._times_min": Poly.sym("T"), "self._bin_width": Poly.sym("w"), "self._shift": Poly.sym("s"), "self._bin_count": Poly.sym("C"),
+                "np.arange(self._bin_count + 1, dtype=int)": Poly.sym("k"), "np.arange(self._bin_count + 1)": Poly.sym("k")}.get(U(n))
+    T, w, s_, C, k = (Poly.sym(x) for x in ("T", "w", "s", "C", "k"))
+    fe = [n.value for n in ast.walk(FW.getters["first_edge"].node) if isinstance(n, ast.Return)]
+    le = [n.value for n in ast.walk(FW.getters["last_edge"].node) if isinstance(n, ast.Return)]
+    nbs = [n.value for n in ast.walk(FW.getters["numpy_bins"].node) if isinstance(n, ast.Assign) and U(n.targets[0]) == "self._numpy_bins" and U(n.value) != "None"]
+    p_fe = to_poly(fe[0], leaf) if fe else None
+    p_le = to_poly(le[0], leaf) if le else None
+    p_nb = to_poly(nbs[0], leaf) if nbs else None
+    ctx.check(p_nb == (T + k) * w + s_, rule, "FixedWidthBinning.numpy_bins", "(times_min + k) * width + shift for k = 0..bin_count",
+              f"numpy_bins = {p_nb}", FW.getters["numpy_bins"].where)
+    ctx.check(p_fe == T * w + s_, rule, "FixedWidthBinning.first_edge", "the k = 0 edge", f"first_edge = {p_fe}, not the k=0 edge of numpy_bins", FW.getters["first_edge"].where)
+    ctx.check(p_le == (T + C) * w + s_, rule, "FixedWidthBinning.last_edge", "the k = bin_count edge", f"last_edge = {p_le}, not the k=bin_count edge of numpy_bins", FW.getters["last_edge"].where)
+
+    def fleaf(n):
+        return {"self._times_min": "T", "self._bin_width": "w", "self._shift": "s", "self._bin_count": "C",
+                "np.arange(self._bin_count + 1, dtype=int)": "k", "np.arange(self._bin_count + 1)": "k"}.get(U(n))
+    t_nb = ftree(nbs[0], fleaf) if nbs else None
+    t_fe = ftree(fe[0], fleaf) if fe else None
+    t_le = ftree(le[0], fleaf) if le else None
+    ctx.check(t_nb is not None and t_fe == fsubst(t_nb, "k", ("const", 0)), rule, "FixedWidthBinning.first_edge:float-exact",
+              "same operation tree as numpy_bins at k = 0",
+              f"first_edge `{U(fe[0]) if fe else None}` is not the numpy_bins expression at k = 0 operation by operation: equal in exact "
+              "arithmetic at most, its float value can differ from numpy_bins[0] by an ulp", FW.getters["first_edge"].where)
+    ctx.check(t_nb is not None and t_le == fsubst(t_nb, "k", ("sym", "C")), rule, "FixedWidthBinning.last_edge:float-exact",
+              "same operation tree as numpy_bins at k = bin_count",
+              f"last_edge `{U(le[0]) if le else None}` is not the numpy_bins expression at k = bin_count operation by operation: equal in "
+              "exact arithmetic at most, so `value == last_edge` in the growth test can miss the edge the lookup uses", FW.getters["last_edge"].where)
+
+
+BIN_COUNT_RULES = {   # the published rules (numpy.histogram_bin_edges uses the same), n = sample size, g = sample skewness
+    "sqrt": "ceil(sqrt(n))",
+    "sturges": "ceil(log2(n)) + 1",
+    "rice": "ceil(2 * n ** (1 / 3))",
+    "doane": "ceil(1 + log2(n) + log2(1 + abs(g) / sqrt(6 * (n - 2) / ((n + 1) * (n + 3)))))",
+}
+
+
+def check_bin_count_rules(ctx, rule, m):
+    """Each `method == <rule>` branch of ideal_bin_count returns its published formula (compared as rational functions with
+    opaque sqrt / log2 / ceil applications, local names expanded)."""
+    from sa.symbolic import RatCtx, to_rat, rat_eq
+    ibc = m.func("binnings", "ideal_bin_count")
+    ctx.saw(ibc)
+    size_names = {U(n.targets[0]) for n in ast.walk(ibc.node) if isinstance(n, ast.Assign) and U(n.value) in ("data.size", "len(data)", "np.size(data)")}
+    for name, want_src in BIN_COUNT_RULES.items():
+        block = None
+        for n in ast.walk(ibc.node):
+            if isinstance(n, ast.If) and isinstance(n.test, ast.Compare) and U(n.test.left) == "method" \
+                    and const_value(n.test.comparators[0]) == name:
+                block = n
+        if block is None:
+            ctx.bad(rule, f"ideal_bin_count:{name}:formula", f"no branch for method '{name}'", ibc.where)
+            continue
+        defs = {}
+        ret = None
+        for st in block.body:
+            if isinstance(st, ast.Assign) and isinstance(st.targets[0], ast.Name):
+                defs[st.targets[0].id] = st.value
+            if isinstance(st, ast.Return):
+                ret = st.value
+        rc = RatCtx()
+
+        def leaf(n, defs=defs):
+            if isinstance(n, ast.Name):
+                if n.id in size_names or n.id == "n":
+                    return Poly.sym("n")
+                if n.id == "g":
+                    return Poly.sym("g")
+                if n.id in defs:
+                    return to_rat(defs[n.id], leaf, rc)
+            if isinstance(n, ast.Call) and U(n.func).split(".")[-1] in ("_skew", "skew") and n.args and U(n.args[0]) == "data":
+                return Poly.sym("g")
+            return None
+        got = to_rat(ret, leaf, rc) if ret is not None else None
+        want = to_rat(ast.parse(want_src, mode="eval").body, leaf, rc)
+        ctx.check(got is not None and rat_eq(got, want), rule, f"ideal_bin_count:{name}:formula", f"{name}: {want_src}",
+                  f"the '{name}' rule returns `{U(ret)[:110] if ret is not None else None}`"
+                  + (f" with {', '.join(f'{k} = {U(v)}' for k, v in defs.items())[:120]}" if defs else "")
+                  + f", which is not {want_src}", ibc.where)
+
+
 def run(ctx):
     m = ctx.model
     bn = m.module("binnings")
@@ -216,6 +306,7 @@ def run(ctx):
     tail_raise = isinstance(ibc.node.body[-1], ast.Raise)
     ctx.check(branches == listed and tail_raise and len(listed) >= 5, "C07.b", "bincount_methods", f"{sorted(listed)} == branches of ideal_bin_count; unknown -> ValueError",
               f"bincount_methods {sorted(listed)} != branches {sorted(branches)} (or the unknown-method raise is gone)", ibc.where)
+    check_bin_count_rules(ctx, "C07.b", m)
     cb = m.func("_construction", "calculate_1d_bins")
     ctx.saw(cb)
     unassigned = 0
@@ -285,22 +376,7 @@ def run(ctx):
 
     # ---- C07.d one source of truth ---------------------------------------------------------------------------------------------
     ctx.rule("C07.d", "FixedWidthBinning edges are one formula; copy() forwards all state", 6)
-    FW = m.cls("FixedWidthBinning")
-
-    def leaf(n):
-        return {"self._times_min": Poly.sym("T"), "self._bin_width": Poly.sym("w"), "self._shift": Poly.sym("s"), "self._bin_count": Poly.sym("C"),
-                "np.arange(self._bin_count + 1, dtype=int)": Poly.sym("k"), "np.arange(self._bin_count + 1)": Poly.sym("k")}.get(U(n))
-    T, w, s_, C, k = (Poly.sym(x) for x in ("T", "w", "s", "C", "k"))
-    fe = [n.value for n in ast.walk(FW.getters["first_edge"].node) if isinstance(n, ast.Return)]
-    le = [n.value for n in ast.walk(FW.getters["last_edge"].node) if isinstance(n, ast.Return)]
-    nbs = [n.value for n in ast.walk(FW.getters["numpy_bins"].node) if isinstance(n, ast.Assign) and U(n.targets[0]) == "self._numpy_bins" and U(n.value) != "None"]
-    p_fe = to_poly(fe[0], leaf) if fe else None
-    p_le = to_poly(le[0], leaf) if le else None
-    p_nb = to_poly(nbs[0], leaf) if nbs else None
-    ctx.check(p_nb == (T + k) * w + s_, "C07.d", "FixedWidthBinning.numpy_bins", "(times_min + k) * width + shift for k = 0..bin_count",
-              f"numpy_bins = {p_nb}", FW.getters["numpy_bins"].where)
-    ctx.check(p_fe == T * w + s_, "C07.d", "FixedWidthBinning.first_edge", "the k = 0 edge", f"first_edge = {p_fe}, not the k=0 edge of numpy_bins", FW.getters["first_edge"].where)
-    ctx.check(p_le == (T + C) * w + s_, "C07.d", "FixedWidthBinning.last_edge", "the k = bin_count edge", f"last_edge = {p_le}, not the k=bin_count edge of numpy_bins", FW.getters["last_edge"].where)
+    check_edge_formula(ctx, "C07.d", m)
     COPY = {"FixedWidthBinning": {"bin_width": "self._bin_width", "bin_count": "self._bin_count", "bin_times_min": "self._times_min", "bin_shift": "self._shift",
                                   "includes_right_edge": "self.includes_right_edge", "adaptive": "self._adaptive", "align": "self._align"},
             "StaticBinning": {"bins": "self.bins.copy()", "includes_right_edge": "self.includes_right_edge"},
